@@ -20,7 +20,7 @@ T_PosArgs == {<< >>, <<0>>, <<1>>, <<0, 2>>, <<1, 3>>, <<4>>, <<2, 1>>, <<1, 1>>
 Alt(len) == SelectSeq([q \in 1..len |-> q - 1], LAMBDA x : x % 2 = 0)
 Full(len) == [q \in 1..len |-> q - 1]
 R_AppendArgs == {<<0, << >>>>, <<1, <<0>>>>, <<3, <<1>>>>, <<63, Alt(63)>>, <<64, Full(64)>>, <<64, <<0, 63>>>>, <<64, << >>>>}
-R_ZeroArgs == {0, 1, 63, 64, 65, 511, 512, 513}
+R_ZeroArgs == {0, 1, 63, 64, 65, 448, 511, 512, 513}
 R_SetPos == {0, 1, 63, 64, 65, 511, 512, 513}
 R_SetBitsArgs == {<<0, 0, << >>>>, <<0, 1, <<0>>>>, <<0, 64, Full(64)>>, <<0, 64, << >>>>, <<1, 63, <<0, 62>>>>, <<60, 8, <<0, 7>>>>,
                   <<63, 2, <<1>>>>, <<448, 64, Alt(64)>>, <<505, 14, <<0, 6, 7, 13>>>>, <<1, 64, <<63>>>>}
